@@ -723,3 +723,190 @@ Theorem indent_order_refuted : exists s1 s2,
   indent_cmp s1 s2 = Some Lt /\
   indent_cmp (expandtabs_plain 4 s1) (expandtabs_plain 4 s2) = Some Gt.
 Proof. exists w_ind1, w_ind2. vm_compute. repeat split. Qed.
+
+(* ---------------------------------------------------------------------------------------------- *)
+(* fix_import_spacing *)
+
+Lemma skipn_skipn' : forall {A} (l : list A) x y, skipn x (skipn y l) = skipn (y + x) l.
+Proof.
+  intros A l x y. revert l. induction y as [| y IH]; intros l; [reflexivity |].
+  destruct l as [| a l]; [destruct x; reflexivity |]. cbn. apply IH.
+Qed.
+
+Lemma split_three : forall {A} (t : list A) a b, a <= b ->
+  t = firstn a t ++ firstn (b - a) (skipn a t) ++ skipn b t.
+Proof.
+  intros A t a b H.
+  rewrite <- (firstn_skipn a t) at 1. f_equal.
+  rewrite <- (firstn_skipn (b - a) (skipn a t)) at 1. f_equal.
+  rewrite skipn_skipn'. f_equal. lia.
+Qed.
+
+Lemma firstn_skipn_swap : forall {A} (l : list A) n m, firstn m (skipn n l) = skipn n (firstn (n + m) l).
+Proof.
+  intros A l n. revert l. induction n as [| n IH]; intros l m; [reflexivity |].
+  destruct l as [| a l]; [destruct m; reflexivity |]. cbn. apply IH.
+Qed.
+
+Lemma slice_agree : forall (t s : text) a b hi,
+  a <= b -> b <= hi -> firstn hi t = firstn hi s -> slice t a b = slice s a b.
+Proof.
+  intros t s a b hi Hab Hb H. unfold slice. rewrite !firstn_skipn_swap.
+  replace (a + (b - a)) with b by lia.
+  assert (E : forall l : text, firstn b l = firstn b (firstn hi l)).
+  { intros l. rewrite firstn_firstn. f_equal. lia. }
+  rewrite (E t), (E s), H. reflexivity.
+Qed.
+
+Section ApplyAll.
+Variable h : text -> list N.
+Hypothesis h_app : forall a b, h (a ++ b) = h a ++ h b.
+Variable P : text -> bool.
+Hypothesis P_h : forall x, P x = true -> h x = [].
+Variable s : text.
+
+Definition okrepl (kr : repl) : Prop :=
+  P (slice s (fst (fst kr)) (snd (fst kr))) = true /\ P (snd kr) = true.
+
+Lemma apply_all_proj : forall rs t hi,
+  desc_disjoint hi rs = true -> hi <= length t -> firstn hi t = firstn hi s ->
+  Forall okrepl rs -> h (apply_all t rs) = h t.
+Proof.
+  induction rs as [| [[a b] r] tl IH]; intros t hi Hd Hlen Hag Hok; [reflexivity |].
+  cbn [apply_all desc_disjoint fst snd] in *.
+  apply andb_true_iff in Hd. destruct Hd as [Hd Hd3]. apply andb_true_iff in Hd. destruct Hd as [Hd1 Hd2].
+  apply Nat.leb_le in Hd1. apply Nat.leb_le in Hd2.
+  inversion Hok as [| x l [Hs Hr] Htl]; subst. cbn [fst snd] in *.
+  rewrite (IH _ a Hd3).
+  - unfold replace_range. rewrite (split_three t a b Hd1) at 3.
+    rewrite !h_app. f_equal. f_equal.
+    rewrite (P_h _ Hr). fold (slice t a b). rewrite (slice_agree t s a b hi Hd1 Hd2 Hag).
+    rewrite (P_h _ Hs). reflexivity.
+  - unfold replace_range. rewrite app_length, firstn_length. lia.
+  - unfold replace_range. rewrite firstn_app, firstn_firstn, firstn_length.
+    replace (a - Nat.min a (length t)) with 0 by lia. cbn [firstn]. rewrite app_nil_r.
+    replace (Nat.min a a) with a by lia.
+    assert (E : forall l : text, firstn a l = firstn a (firstn hi l)).
+    { intros l. rewrite firstn_firstn. f_equal. lia. }
+    rewrite (E t), (E s), Hag. reflexivity.
+  - exact Htl.
+Qed.
+End ApplyAll.
+
+Lemma insert_desc_Forall : forall (Q : repl -> Prop) x l, Q x -> Forall Q l -> Forall Q (insert_desc x l).
+Proof.
+  intros Q x. induction l as [| y l IH]; intros Hx Hl; cbn.
+  - constructor; [exact Hx | constructor].
+  - inversion Hl; subst. destruct (range_ltb (fst x) (fst y)).
+    + constructor; [assumption | apply IH; assumption].
+    + constructor; assumption.
+Qed.
+
+Lemma sort_desc_Forall : forall (Q : repl -> Prop) l, Forall Q l -> Forall Q (sort_desc l).
+Proof.
+  intros Q. induction l as [| x l IH]; intros H; [constructor |].
+  inversion H; subst. cbn. apply insert_desc_Forall; [assumption | apply IH; assumption].
+Qed.
+
+Lemma all_ws_repeat : forall c m n, is_space c = true -> all_ws (repeat (c, m) n) = true.
+Proof. intros c m n H. induction n as [| n IH]; [reflexivity |]. cbn. rewrite H. exact IH. Qed.
+
+Lemma unmasked_repeat : forall c n, unmasked (repeat (c, false) n) = true.
+Proof. intros c n. induction n as [| n IH]; [reflexivity | exact IH]. Qed.
+
+Lemma unmasked_app : forall a b, unmasked (a ++ b) = unmasked a && unmasked b.
+Proof. intros. apply forallb_app. Qed.
+
+(* what fix_import_spacing decides to write is whitespace, over whitespace, and unmasked over unmasked *)
+Definition fine (s : text) (kr : repl) : Prop :=
+  let old := slice s (fst (fst kr)) (snd (fst kr)) in
+  all_ws old = true /\ all_ws (snd kr) = true /\ (unmasked old = true -> unmasked (snd kr) = true).
+
+Lemma decide_fine : forall a b btw indent r, decide a b btw indent = Some r ->
+  all_ws btw = true /\ all_ws r = true /\ (unmasked btw = true -> unmasked r = true).
+Proof.
+  intros a b btw indent r H. unfold decide in H.
+  destruct (existsb (fun c => negb (is_nl (fst c) || N.eqb (fst c) SP)) btw) eqn:E; [discriminate |].
+  assert (Hws : all_ws btw = true).
+  { apply forallb_forall. intros x Hx.
+    pose proof (existsb_exists (fun c => negb (is_nl (fst c) || N.eqb (fst c) SP)) btw) as EE.
+    destruct (negb (is_nl (fst x) || N.eqb (fst x) SP)) eqn:Ex.
+    - assert (existsb (fun c => negb (is_nl (fst c) || N.eqb (fst c) SP)) btw = true) as C
+        by (apply EE; exists x; split; assumption). congruence.
+    - apply negb_false_iff, orb_true_iff in Ex. destruct Ex as [Ex | Ex].
+      + apply nl_is_space. exact Ex.
+      + apply N.eqb_eq in Ex. rewrite Ex. reflexivity. }
+  assert (Hsp : forall m n, all_ws (spacing m n indent) = true).
+  { intros m n. unfold spacing. rewrite all_ws_app, !all_ws_repeat by reflexivity. reflexivity. }
+  assert (Hun : forall n, unmasked btw = true ->
+                unmasked (spacing (match btw with c :: _ => snd c | [] => false end) n indent) = true).
+  { intros n Hu. destruct btw as [| c btw'].
+    - unfold spacing. rewrite unmasked_app, !unmasked_repeat. reflexivity.
+    - cbn in Hu. apply andb_true_iff in Hu. destruct Hu as [Hc _]. apply negb_true_iff in Hc.
+      rewrite Hc. unfold spacing. rewrite unmasked_app, !unmasked_repeat. reflexivity. }
+  destruct (correct_newlines a b) as [n |]; [| discriminate].
+  destruct ((n =? 1) && (1 <? count_nl btw)).
+  - inversion H; subst. split; [exact Hws | split; [apply Hsp | apply Hun]].
+  - destruct (negb (n =? count_nl btw) && (0 <? count_nl btw)); [| discriminate].
+    inversion H; subst. split; [exact Hws | split; [apply Hsp | apply Hun]].
+Qed.
+
+Lemma dict_set_Forall : forall s k v d,
+  fine s (k, v) -> Forall (fine s) d -> Forall (fine s) (dict_set k v d).
+Proof.
+  intros s k v. induction d as [| [k' v'] d IH]; intros Hk Hd; cbn.
+  - constructor; [exact Hk | constructor].
+  - inversion Hd; subst.
+    destruct ((fst k =? fst k') && (snd k =? snd k')) eqn:E.
+    + apply andb_true_iff in E. destruct E as [E1 E2]. apply Nat.eqb_eq in E1. apply Nat.eqb_eq in E2.
+      constructor; [| assumption]. unfold fine in *. cbn [fst snd] in *. rewrite <- E1, <- E2. exact Hk.
+    + constructor; [assumption | apply IH; assumption].
+Qed.
+
+Lemma collect_fine : forall s ps, Forall (fine s) (collect s ps).
+Proof.
+  intros s ps. unfold collect.
+  assert (G : forall d, Forall (fine s) d ->
+    Forall (fine s) (fold_left (fun d p =>
+      match decide (p_a p) (p_b p) (slice s (p_start p) (p_end p)) (p_indent p) with
+      | Some r => dict_set (p_start p, p_end p) r d
+      | None => d
+      end) ps d)).
+  { induction ps as [| p ps IH]; intros d Hd; [exact Hd |].
+    cbn [fold_left]. apply IH.
+    destruct (decide (p_a p) (p_b p) (slice s (p_start p) (p_end p)) (p_indent p)) as [r |] eqn:E; [| exact Hd].
+    apply dict_set_Forall; [| exact Hd]. unfold fine. cbn [fst snd]. exact (decide_fine _ _ _ _ _ E). }
+  apply G. constructor.
+Qed.
+
+(* T11.1 (import spacing): when the replaced ranges are in bounds and disjoint, only whitespace changes *)
+Theorem import_spacing_nonws : forall s ps,
+  g_ranges s ps = true -> nonws (import_spacing s ps) = nonws s.
+Proof.
+  intros s ps G. unfold import_spacing, g_ranges in *.
+  apply (apply_all_proj nonws nonws_app all_ws all_ws_nonws s _ s (length s) G (le_n _) eq_refl).
+  apply sort_desc_Forall. eapply Forall_impl; [| apply collect_fine].
+  intros kr [H1 [H2 _]]. split; assumption.
+Qed.
+
+(* T11.2 (import spacing) *)
+Theorem import_spacing_lit : forall s ps,
+  g_ranges s ps = true -> g_ranges_lit s ps = true -> lit (import_spacing s ps) = lit s.
+Proof.
+  intros s ps G GL. unfold import_spacing, g_ranges, g_ranges_lit in *.
+  apply (apply_all_proj lit lit_app unmasked unmasked_lit s _ s (length s) G (le_n _) eq_refl).
+  apply sort_desc_Forall.
+  rewrite forallb_forall in GL.
+  pose proof (collect_fine s ps) as F. rewrite Forall_forall in *.
+  intros kr Hin. destruct (F kr Hin) as [_ [_ H3]].
+  specialize (GL kr Hin). apply negb_true_iff, unmasked_existsb in GL.
+  split; [exact GL | exact (H3 GL)].
+Qed.
+
+(* without the range guard the sequential replacement can eat code: `x NL NL NL y` with the (never
+   observed) overlapping ranges [2,4) and [1,4) between imports of the same group *)
+Definition w_imp_text : text := untagged [120; 10; 10; 10; 121]%N.
+Definition k_imp : kind := mkKind true true false false.
+Definition w_imp_pairs : list pair_info := [mkPair k_imp k_imp 2 4 0; mkPair k_imp k_imp 1 4 0].
+Theorem import_spacing_nonws_refuted : exists s ps, nonws (import_spacing s ps) <> nonws s.
+Proof. exists w_imp_text, w_imp_pairs. vm_compute. discriminate. Qed.
